@@ -91,12 +91,21 @@ def handle : List String → String
       | .error (.fromRemove e) => "raised " ++ showExc e
     | _, _ => "bad-request"
   | ["tmp", content, truthy, ens, mk, wr] =>
-    match unhex content, parseBool truthy, parseOutcome ens, parseOutcome mk, parseOutcome wr with
-    | some c, some t, some e, some m, some w =>
-      let o := writeToTempfile c t e m w
-      let file := match o.file with | none => "none" | some f => hex f
-      s!"{showRes o.result} ensure={if o.ensureCalled then 1 else 0} file={file} closed={if o.fdClosed then 1 else 0}"
-    | _, _, _, _, _ => "bad-request"
+    -- wr: "ok" (everything transferred), "short:<n>" (n bytes transferred) or an exception
+    let parseWrite (c : Bytes) (w : String) : Option (Except Exc Nat) :=
+      if w = "ok" then some (.ok c.length)
+      else match w.splitOn ":" with
+        | ["short", n] => n.toNat?.map .ok
+        | _ => (parseExc w).map .error
+    match unhex content, parseBool truthy, parseOutcome ens, parseOutcome mk with
+    | some c, some t, some e, some m =>
+      match parseWrite c wr with
+      | some w =>
+        let o := writeToTempfile c t e m w
+        let file := match o.file with | none => "none" | some f => hex f
+        s!"{showRes o.result} ensure={if o.ensureCalled then 1 else 0} file={file} closed={if o.fdClosed then 1 else 0}"
+      | none => "bad-request"
+    | _, _, _, _ => "bad-request"
   | ["fs_ensure", st] =>
     match parseState st with
     | some st =>
